@@ -125,6 +125,7 @@ class Scheduler:
         self.log_lines = log_lines
         self.line_hits = {}  # (file, line) -> count of switches landing there
         self.line_names = {}  # (file, line) -> function name
+        self.strict_cap = True  # False: past the step cap the run simply continues without further pre-emption
         self.on_switch = None
 
     # ------------------------------------------------------------------ setup
@@ -175,7 +176,7 @@ class Scheduler:
                 t.os_thread.join(60)
                 if t.os_thread.is_alive():
                     raise HarnessError("sim-thread did not terminate")
-        if self.aborted:
+        if self.aborted and self.strict_cap:
             raise HarnessError(self.aborted)
         for t in self.threads:
             if t.error is not None:
